@@ -38,6 +38,9 @@ fn gen02(t: &mut Tape, tier: Tier) -> Scenario {
         }
         prev = c;
     }
+    if b.ps.len_273_far > 0 {
+        flags |= 65536;
+    }
     if b.ps.cross_chunk_copies > 0 {
         flags |= 256;
     }
@@ -142,7 +145,7 @@ fn exec02(sc: &Scenario, ctx: &mut Ctx) -> Vec<Violation> {
         ctx.stats.hit("probe.256_or_more_chunks");
     }
     ctx.stats.max("max_chunks_in_one_stream", sc.i("nchunks"));
-    let names: [&'static str; 16] = [
+    let names: [&'static str; 17] = [
         "probe.uncompressed_chunk_with_dictionary_reset",
         "probe.uncompressed_chunk_without_reset",
         "probe.lzma_chunk_no_reset",
@@ -159,6 +162,7 @@ fn exec02(sc: &Scenario, ctx: &mut Ctx) -> Vec<Violation> {
         "probe.lzma_chunk_above_60000_packed",
         "probe.lzma_chunk_with_5_byte_payload",
         "probe.lzma_chunk_with_65536_byte_payload_the_field_maximum",
+        "probe.longest_match_273_from_a_non_overlapping_source",
     ];
     for (i, n) in names.iter().enumerate() {
         if f & (1 << i) != 0 {
